@@ -24,7 +24,12 @@ func main() {
 	tier := flag.String("tier", "", "quick|thorough")
 	repo := flag.String("repo", "/repo", "repository working tree")
 	verif := flag.String("verif", "/verif", "verification directory")
+	control := flag.String("control", "", "apply a positive-control edit (JSON file) in memory before analysing")
+	outDir := flag.String("out", "", "directory for evidence/ and out/ (default: the verification directory)")
 	flag.Parse()
+	if *outDir == "" {
+		*outDir = *verif
+	}
 	if *tier == "" {
 		*tier = os.Getenv("VERIF_TIER")
 	}
@@ -37,12 +42,21 @@ func main() {
 		fmt.Printf("UNDECIDED property=%s reason=unknown property\n", *prop)
 		os.Exit(2)
 	}
-	code := runProperty(*prop, spec, *tier, *repo, *verif, seed)
+	var overlay map[string][]byte
+	if *control != "" {
+		ov, err := controlOverlay(*repo, *control)
+		if err != nil {
+			fmt.Printf("CONTROL-STALE %s: %v\n", *control, err)
+			os.Exit(3)
+		}
+		overlay = ov
+	}
+	code := runProperty(*prop, spec, *tier, *repo, *verif, *outDir, seed, overlay)
 	os.Exit(code)
 }
 
-func runProperty(prop string, spec propSpec, tier, repo, verif string, seed int) (code int) {
-	p, err := Load(repo, false, nil)
+func runProperty(prop string, spec propSpec, tier, repo, verif, outDir string, seed int, overlay map[string][]byte) (code int) {
+	p, err := Load(repo, false, overlay)
 	if err != nil {
 		fmt.Printf("UNDECIDED property=%s reason=load failed: %v\n", prop, err)
 		return 2
@@ -63,7 +77,10 @@ func runProperty(prop string, spec propSpec, tier, repo, verif string, seed int)
 	for _, a := range spec.Assumptions {
 		r.Assume(a)
 	}
-	return r.Finish(verif, spec.Explanation)
+	if tier == "thorough" && overlay == nil {
+		runControls(r, prop, repo, verif)
+	}
+	return r.Finish(verif, outDir, spec.Explanation)
 }
 
 func dumpCmd(args []string) {
